@@ -468,7 +468,8 @@ type Engine struct {
 	replayCovers   map[string]int
 	replayHolds    map[string]int
 	replayFails    map[string]int
-	replayKnown    map[string]bool // failing vKnown assertions of a replay
+assumeSites map[string][2]int // vAssume call site -> {paths arrived, paths survived} (symbolic run)
+		replayKnown    map[string]bool // failing vKnown assertions of a replay
 	replayDiverged bool
 	replayLog      []string
 }
